@@ -259,6 +259,63 @@ pub fn run(progs: &str, mode: &str, seed: u64, samples: usize, out: &str) -> std
             }
             case(alt, &b, s, &mut t);
         }
+        // directed: stored checksums that a sloppy verifier might accept -- the right CRC in the wrong byte order (with the
+        // payload intact or altered), the complemented CRC, the CRC of the payload plus zero padding
+        for k in 0..npages {
+            let pay = &img[k * PAGE..k * PAGE + PAYLOAD];
+            let mut altered = pay.to_vec();
+            altered[(k * 37) % PAYLOAD] ^= 0x5A;
+            let mut padded = altered.clone();
+            padded.extend_from_slice(&[0, 0]);
+            let variants: Vec<(&str, Vec<u8>, [u8; 4])> = vec![
+                ("crc-byte-swapped", pay.to_vec(), crc32c_bitwise(pay).to_le_bytes()),
+                ("altered+crc-little-endian", altered.clone(), crc32c_bitwise(&altered).to_le_bytes()),
+                ("altered+crc-complemented", altered.clone(), (!crc32c_bitwise(&altered)).to_be_bytes()),
+                ("altered+crc-of-zero-padded", altered.clone(), crc32c_bitwise(&padded).to_be_bytes()),
+            ];
+            for (name, payload, sum) in variants {
+                let mut b = img.clone();
+                b[k * PAGE..k * PAGE + PAYLOAD].copy_from_slice(&payload);
+                b[k * PAGE + PAYLOAD..(k + 1) * PAGE].copy_from_slice(&sum);
+                if b == img {
+                    continue;
+                }
+                case(json!({"kind": name, "page": k}), &b, k, &mut t);
+            }
+        }
+        // other page sizes (validate_crc and raw_xml take the page size from the header): the same logical file re-paged
+        // with p - 4 payload bytes per page, every page sealed with CRC-32C; intact -> both succeed, one altered byte -> both report it
+        let logical = payload(&img);
+        let (xoff, xlen) = (u64::from_le_bytes(img[24..32].try_into().unwrap()), u64::from_le_bytes(img[32..40].try_into().unwrap()) as usize);
+        let xlo = (xoff - 4 * (xoff / PAGE as u64)) as usize;
+        for p in [1021usize, 1022, 1023, 1025, 1027, 513, 514, 260, 65, 2048] {
+            let pl = p - 4;
+            let mut l = logical.clone();
+            while l.len() % pl != 0 {
+                l.push(0);
+            }
+            let np = l.len() / pl;
+            l[16..24].copy_from_slice(&((np * p) as u64).to_le_bytes());
+            l[24..32].copy_from_slice(&((xlo + 4 * (xlo / pl)) as u64).to_le_bytes());
+            l[40..48].copy_from_slice(&(p as u64).to_le_bytes());
+            let mut b = Vec::with_capacity(np * p);
+            for c in l.chunks(pl) {
+                b.extend_from_slice(c);
+                b.extend_from_slice(&crc32c_bitwise(c).to_be_bytes());
+            }
+            let _ = xlen;
+            for altered in [false, true] {
+                let mut bb = b.clone();
+                if altered {
+                    let at = (xlo + 4 * (xlo / pl)) + 5;      // inside the XML section
+                    bb[at] ^= 0x01;
+                }
+                let (v, x) = statics(&bb);
+                t.ev(json!({"ev":"c07","alt":{"kind": format!("pagesize-{p}"), "altered": altered},"pages": if altered { vec![0] } else { vec![] },"order":0,"ops":[],
+                            "vcrc": if v.starts_with("panic") {"panic".to_string()} else {v},
+                            "rawxml": classify(&x, Some(&px))}));
+            }
+        }
     }
     use std::io::Write;
     t.f.flush()
